@@ -593,7 +593,8 @@ Proof.
   - (* EndLine *) inversion H; subst. destruct C3 as (e & C3 & _); [congruence|].
     destruct (Inv_mark_best n w3 [cand] I3 (ex_intro _ e C3)) as [I4 O4]. split; auto; otr.
   - (* Truncated *) inversion H; subst. destruct (has_best w3); [split; auto|].
-    destruct (Inv_mark_best n w3 [] I3 (Inv_alt_chain n w3 I3)) as [I4 O4]. split; auto; otr.
+    destruct (Inv_restore n w3 I3) as [I4r O4r].
+    destruct (Inv_mark_best n (restore w3) [] I4r (Inv_alt_chain n _ I4r)) as [I4 O4]. split; auto; otr.
   - (* NewLineBeforeBreak *) inversion H; subst. destruct (Inv_restore n w3 I3) as [I4 O4]. split.
     + apply Inv_set_br; auto.
     + eapply ofr_trans; [exact O3|]. eapply ofr_trans; [exact O4|]. apply ofr_set_br; reflexivity.
@@ -633,9 +634,10 @@ Proof.
   - (* EndLine *) inversion H; subst. destruct C3 as (e & C3 & _); [congruence|].
     destruct (Inv_mark_best n w3 [cand] I3 (ex_intro _ e C3)) as [I4 O4]. split; auto; otr.
   - (* Truncated *)
-    assert (X : Inv n (if has_best w3 then w3 else mark_best w3 []) /\ ofr w (if has_best w3 then w3 else mark_best w3 [])).
+    assert (X : Inv n (if has_best w3 then w3 else mark_best (restore w3) []) /\ ofr w (if has_best w3 then w3 else mark_best (restore w3) [])).
     { destruct (has_best w3); [split; auto|].
-      destruct (Inv_mark_best n w3 [] I3 (Inv_alt_chain n w3 I3)) as [I4 O4]. split; auto; otr. }
+      destruct (Inv_restore n w3 I3) as [I4r O4r].
+      destruct (Inv_mark_best n (restore w3) [] I4r (Inv_alt_chain n _ I4r)) as [I4 O4]. split; auto; otr. }
     destruct X as [I4 O4]. destruct (policy_never _); [inversion H; subst; auto|]. eapply G; eauto.
   - (* NewLineBeforeBreak *)
     destruct (Inv_restore n w3 I3) as [I4 O4].
